@@ -184,3 +184,27 @@ Example lookups_hypotheses :
   nodup_b (map fst (types S_ex)) = true /\
   ViewBridge.FM.schema_ok (ViewBridge.to_feat (ViewBridge.registered S_ex)) = true.
 Proof. vm_compute. split; reflexivity. Qed.
+
+(** Float defaults that are not integral: 1.5 = 6755399441055744 * 2^-52 printed "1.5", and
+    1e+21 = 7629394531250000 * 2^17 printed "1e+21" (exponent form): both are inside [printable]
+    (second disjunct) and round-trip *)
+Definition v_f1 : gval := GFloat 6755399441055744 (-52) (nm "1.5").
+Definition v_f2 : gval := GFloat 7629394531250000 17 (nm "1e+21").
+Example float_hypotheses :
+  default_conforms S_ex (GList [v_f1; v_f2]) (StList (StNamed (nm "Float"))) = true /\
+  printable (GList [v_f1; v_f2]).
+Proof.
+  split; [vm_compute; reflexivity|]. simpl. split; [|split; [|exact I]].
+  - right. exists false, (nm "1"), (nm "5"), None. split; [|split; [reflexivity | vm_compute; reflexivity]].
+    unfold go_float_ok, all_digits. repeat split; repeat constructor.
+  - right. exists false, (nm "1"), [], (Some (Some false, nm "21")). split; [|split; [reflexivity | vm_compute; reflexivity]].
+    unfold go_float_ok, all_digits. repeat split; repeat constructor. discriminate.
+Qed.
+Example float_instance :
+  exists txt, marshal S_ex (GList [v_f1; v_f2]) (StList (StNamed (nm "Float"))) = MOk txt /\
+              literal_denotes S_ex (StList (StNamed (nm "Float"))) txt (GList [v_f1; v_f2]) = true.
+Proof.
+  apply default_roundtrip_values;
+    [apply enums_ok_b_spec; vm_compute; reflexivity | apply inputs_ok_b_spec; vm_compute; reflexivity | | ];
+    apply float_hypotheses.
+Qed.
